@@ -192,14 +192,18 @@ func c16Run(m uint8, nops int, firstKind int) {
 	c16CheckAll(t, ref, store, "")
 }
 
-func c16Ops() int {
+func c16Ops() int { return 2 }
+
+// thorough tier: three operations from the empty tree with fan-out 2 (20^3 sequences; the other harnesses keep two
+// operations: with every harness at three operations the run needs more than the sandbox's 64 GB)
+func c16OpsDeep() int {
 	if vTier() == 1 {
 		return 3
 	}
 	return 2
 }
 
-func VH_C16_m2() { c16Run(2, c16Ops(), -1) }
+func VH_C16_m2() { c16Run(2, c16OpsDeep(), -1) }
 func VH_C16_m3() { c16Run(3, c16Ops(), -1) }
 func VH_C16_m4() { c16Run(4, c16Ops(), -1) }
 
